@@ -165,6 +165,23 @@ def check_case(ctx, text, doc, cls):
                 if not r2.ok or not strict_eq(r2.value, want):
                     ctx.violation("%s-through-the-pointer's-string-form-differs" % what, case, dict(detail, outcome=r2.desc() if not r2.ok else canon(r2.value)[:300]))
                     return
+            if r.ok and "\\" not in ptext and what in ("test", "replace", "remove") and ctx.rng.random() < 0.25:
+                # the pointer written as a URI fragment (RFC 6901 section 6: percent-encoded octets; sub-delimiters such as '+'
+                # may stay as they are) and handed to a patch that is asked to decode it
+                import urllib.parse
+
+                try:
+                    ftext = urllib.parse.quote(ptext, safe="/" + ctx.rng.choice(["", "!$&'()*+,;=:@?"]))
+                except UnicodeEncodeError:
+                    ftext = None
+                if ftext is not None and not any(isinstance(p, str) and (p[:1] in "#~" or gen.over_limit(p) or p != p.lstrip()) for p in parts) and ptext == ptext.lstrip():
+                    b = jsonpath.JSONPatch(uri_decode=True)
+                    p3 = b.test(ftext, copy.deepcopy(m.obj)) if what == "test" else (b.replace(ftext, copy.deepcopy(new)) if what == "replace" else b.remove(ftext))
+                    r3 = impl.call(p3.apply, copy.deepcopy(doc))
+                    ctx.count("uri_fragment_route")
+                    if not r3.ok or not strict_eq(r3.value, want):
+                        ctx.violation("%s-through-the-pointer-written-as-a-uri-fragment-differs" % what, case, dict(detail, fragment=ftext, outcome=r3.desc() if not r3.ok else canon(r3.value)[:300]))
+                        return
             if not r.ok:
                 ctx.violation("%s-through-match-pointer-failed:%s" % (what, type(r.exc).__name__), case, dict(detail, error=r.desc()))
                 return
